@@ -6,7 +6,8 @@
    Every [finding_*] below is a closed computation on the mirror of
    Model/Text.v; each one was replayed against the real Go functions
    (solver.ParseCNF, solver.ParseOPB, maxsat.ParseWCNF, explain.ParseCNF,
-   Problem.PBString, Solver.PBString) with the same outcome. *)
+   Problem.PBString, Solver.PBString) with the same outcome.  The [fixed_*]
+   examples are former findings that have been fixed in /repo. *)
 From Coq Require Import List ZArith Bool NArith String Ascii Lia Arith.
 From GS Require Import Spec.Base Spec.PB Spec.Solver Model.Text Model.TextPrint.
 From GS Require Export Proofs.TextNum Proofs.TextLex Proofs.TextDimacs Proofs.TextOpb
@@ -291,34 +292,41 @@ Qed.
 (* ------------------------------------------------------------------ *)
 (* FINDINGS about the printers (C18).                                  *)
 
-(* [P1] Problem.PBString writes the empty clause (kept in pb.Clauses by
-   ParseCNF when the text contains "0") as " >= 1 ;", which ParseOPB rejects
-   ("invalid syntax").  So [wf_pb_problem] (every constraint has a term)
-   cannot be dropped from C18_opb. *)
-Theorem C18_opb_empty_clause_refuted :
-  exists P, lines_short (list_ascii_of_string (print_opb P)) /\ parse_opb (print_opb P) = None.
-Proof.
-  exists (PBProblem 1 [] [PBC [] 1] None). split; vm_compute; reflexivity.
-Qed.
+(* [P1] (no longer reachable; 3c5e2a5) Problem.PBString writes a constraint
+   without literal as " >= 1 ;", which ParseOPB rejects.  A constraint without
+   literal only occurs in a problem whose Status is Unsat (ParseCNF / ParseSlice
+   / simplify2 / simplifyCard / simplifyPB all set Status = Unsat when they meet
+   or produce one), and such a problem is now printed as "1 x1 >= 2 ;".  The
+   hypothesis [wf_pb_problem] of C18_opb is therefore met by every problem that
+   a parser or constructor builds; this note only records why it is there. *)
+Example note_pbstring_constraint_without_literal :
+  parse_opb (print_opb (PBProblem 1 false [] [PBC [] 1] None)) = None /\
+  parse_opb (print_opb (PBProblem 1 true [] [PBC [] 1] None))
+  = Some (1, [contradiction_uc], None).
+Proof. split; vm_compute; reflexivity. Qed.
 
-(* [P2] Solver.PBString joins the terms of the cost function with " +"
-   (solver.go:825): a negative coefficient that is not the first is written
-   "+-2", and ParseOPB panics on it (parser_pb.go:218, terms[i*2] out of
-   range).  Problem.PBString (costFuncString) is right. *)
-Theorem C18_solver_opb_negative_cost_refuted :
-  exists S, lines_short (print_solver_opb_b S) /\
-            Forall wf_pbc_print (sv_orig S ++ sv_learned S) /\
-            parse_opb_r (print_solver_opb_b S) = PPanic.
-Proof.
-  exists (SolverView 2 [PBC [(1, 1); (1, 2)] 1] [] (Some [(1, 1); (-2, 2)]) [0; 0]).
-  split; [vm_compute; reflexivity|]. split; [|vm_compute; reflexivity].
-  constructor; [|constructor]. split; [discriminate|]. constructor; [cbn; lia|constructor].
-Qed.
+(* [P2] (fixed in /repo, f01370b) Solver.PBString no longer writes a negative
+   cost coefficient as "+-2": the text is read back. *)
+Example fixed_solver_pbstring_negative_cost :
+  parse_opb (print_solver_opb
+     (SolverView 2 false [PBC [(1, 1); (1, 2)] 1] [] (Some [(1, 1); (-2, 2)]) [0; 0]))
+  = Some (2, [UC [(1, 1); (1, 2)] Ge 1], Some [(1, 1); (-2, 2)]).
+Proof. vm_compute; reflexivity. Qed.
+
+(* (fixed in /repo, 3c5e2a5) a trivially UNSAT problem is printed as an
+   unsatisfiable text by the three solver printers *)
+Example fixed_unsat_status_printed :
+  parse_dimacs (print_cnf (3, true, [1; -1], [])) = Some (3, [[]]) /\
+  parse_opb (print_opb (PBProblem 3 true [1; -1] [] (Some [(2, 3)])))
+  = Some (3, [contradiction_uc], Some [(2, 3)]) /\
+  parse_opb (print_solver_opb (SolverView 0 true [] [] None []))
+  = Some (1, [contradiction_uc], None).
+Proof. repeat split; vm_compute; reflexivity. Qed.
 
 (* [P3] the number of variables is not part of the OPB rendering that the
    reader looks at: variables that no longer occur are lost. *)
 Example finding_pbstring_loses_variables :
-  parse_opb (print_opb (PBProblem 3 [1] [] None)) = Some (1, [UC [(1, 1)] Eq 1], None).
+  parse_opb (print_opb (PBProblem 3 false [1] [] None)) = Some (1, [UC [(1, 1)] Eq 1], None).
 Proof. vm_compute; reflexivity. Qed.
 
 (* ------------------------------------------------------------------ *)
@@ -329,7 +337,8 @@ Theorem C18_opb_models : forall P,
   exists n' cs',
     parse_opb (print_opb P) = Some (n', cs', pp_cost P) /\
     forall m, sat_uproblem m cs'
-              = forallb (lit_val m) (pp_units P) && sat_problem m (pp_clauses P).
+              = negb (pp_unsat P)
+                && (forallb (lit_val m) (pp_units P) && sat_problem m (pp_clauses P)).
 Proof.
   intros P Hwf Hs. eexists. eexists. split; [apply C18_opb; assumption|].
   intros m. apply sat_pb_problem_ucs.
@@ -370,11 +379,15 @@ Theorem C18_solver_opb_models : forall S,
   exists n' cs',
     parse_opb (print_solver_opb S) = Some (n', cs', sv_cost S) /\
     forall m, sat_uproblem m cs'
-              = sat_problem m (sv_orig S ++ sv_learned S) && facts_sat m 0 (sv_model S).
+              = sat_problem m (sv_orig S ++ sv_learned S)
+                && (negb (sv_unsat S) && facts_sat m 0 (sv_model S)).
 Proof.
   intros S Hwf Hs. eexists. eexists. split; [apply C18_solver_opb; assumption|].
-  intros m. unfold solver_view_ucs, facts_ucs, sat_uproblem. rewrite forallb_app. f_equal.
+  intros m. unfold solver_view_ucs, facts_ucs, sat_uproblem. rewrite !forallb_app. f_equal.
   - unfold sat_problem. induction (sv_orig S ++ sv_learned S) as [|c r IH]; [reflexivity|].
     cbn [map forallb]. rewrite sat_pbc_uc, IH. reflexivity.
-  - apply (sat_facts_items m (sv_model S) 0). lia.
+  - f_equal.
+    + destruct (sv_unsat S); [|reflexivity]. cbn [forallb]. rewrite sat_contradiction_uc.
+      reflexivity.
+    + apply (sat_facts_items m (sv_model S) 0). lia.
 Qed.
